@@ -3,6 +3,7 @@
 cd /verif
 for d in seeded/*/; do
   n=$(basename $d)
+  python3 -c "import json,sys; sys.exit(0 if 'superseded' in json.load(open('$d/meta.json')) else 1)" && { echo "SKIP $n (superseded)"; continue; }
   checks=$(python3 -c "import json; print(' '.join(json.load(open('$d/meta.json')).get('checks', [])))")
   [ -z "$checks" ] && checks=${n%%-*}
   tools/seedtest.sh /verif/$d $n $checks 2>&1 | grep "^RESULT"
